@@ -12,6 +12,8 @@ DRIVERS = {
     'arith': ('arith_prelude.h', ['smt/arith/rational.cpp', 'smt/arith/lin.cpp'], ['smt', 'smt/arith']),
     'dl': ('dl_prelude.h', ['smt/sat_core.cpp', 'smt/clause.cpp', 'smt/constr.cpp', 'smt/theory.cpp', 'smt/sat_stack.cpp', 'smt/json/json.cpp', 'smt/arith/rational.cpp',
                            'smt/arith/lin.cpp', 'smt/arith/dl/idl_theory.cpp'], ['smt', 'smt/arith', 'smt/arith/dl', 'smt/json']),
+    'rdl': ('rdl_prelude.h', ['smt/sat_core.cpp', 'smt/clause.cpp', 'smt/constr.cpp', 'smt/theory.cpp', 'smt/sat_stack.cpp', 'smt/json/json.cpp', 'smt/arith/rational.cpp',
+                              'smt/arith/lin.cpp', 'smt/arith/dl/rdl_theory.cpp'], ['smt', 'smt/arith', 'smt/arith/dl', 'smt/json']),
     'sat': ('sat_prelude.h', ['smt/sat_core.cpp', 'smt/clause.cpp', 'smt/constr.cpp', 'smt/theory.cpp', 'smt/sat_stack.cpp', 'smt/json/json.cpp'],
             ['smt', 'smt/arith', 'smt/json']),
 }
